@@ -31,13 +31,15 @@ pub fn run_sat(case: &Value, _seed: u64) -> Outcome {
     // chain 6: one upstream version, revisions whose order is not the order of their texts
     const CHAIN6: [&str; 6] = ["1.0-1~bpo12+1", "1.0-1", "1.0-2", "1.0-9", "1.0-10", "1.0-10+b1"];
     let chain6_ok = CHAIN6.windows(2).all(|w| w[0].parse::<Version>().ok() < w[1].parse::<Version>().ok());
-    for chain_id in 0..7 {
+    for chain_id in 0..8 {
         if chain_id == 6 && !chain6_ok { o.d("chain6_not_ascending", "", String::new()); continue; }
         if chain_id == 5 && !chain5_ok { o.d("chain5_not_ascending", "", String::new()); continue; }
         if chain_id == 4 && !chain4_ok { o.d("chain4_not_ascending", "", String::new()); continue; }
         let chain = if chain_id >= 2 { 0 } else { chain_id };
         // (chain 3: q's name extends p's name - a lookup must compare whole names)
-        let names: HashMap<&str, &str> = if chain_id == 3 { [("p", "libfoo"), ("q", "libfoo-dev")].into_iter().collect() } else { [("p", if chain == 0 { "libfoo2.0-dev" } else { "g++" }), ("q", if chain == 0 { "bar" } else { "x~y" })].into_iter().collect() };
+        // (chain 7: names with upper-case letters; an ABSENT package has a namesake in other letter case installed, at a
+        //  version that would satisfy anything - names are compared exactly, so it stays absent)
+        let names: HashMap<&str, &str> = if chain_id == 7 { [("p", "libFoo"), ("q", "R-base")].into_iter().collect() } else if chain_id == 3 { [("p", "libfoo"), ("q", "libfoo-dev")].into_iter().collect() } else { [("p", if chain == 0 { "libfoo2.0-dev" } else { "g++" }), ("q", if chain == 0 { "bar" } else { "x~y" })].into_iter().collect() };
         let ver0 = |rank: u64| -> String { if chain_id == 4 { return CHAIN4[rank as usize].to_string(); } if chain_id == 5 { return CHAIN5[rank as usize].to_string(); } if chain_id == 6 { return CHAIN6[rank as usize].to_string(); } let v = VERS[chain][rank as usize]; if chain == 1 && rank >= 3 { format!("1:{}", v) } else { v.to_string() } };
         let ver = |rank: u64| -> String { if chain_id == 3 { format!("0:{}", ver0(rank)) } else { ver0(rank) } };
         let ver_inst = |rank: u64| -> String { if chain_id == 2 { format!("0:{}", ver0(rank)) } else { ver0(rank) } };
@@ -53,9 +55,10 @@ pub fn run_sat(case: &Value, _seed: u64) -> Outcome {
         for (p, r) in case["i"].as_object().unwrap() {
             let r = r.as_u64().unwrap();
             if r != 0 { installed.insert(names[p.as_str()].to_string(), ver_inst(r).parse().unwrap()); }
+            else if chain_id == 7 && p.as_str() == "p" { installed.insert(names[p.as_str()].to_lowercase(), "99:99".parse().unwrap()); }
         }
         // (odd chains: the installed set also holds packages the field does not mention)
-        if chain_id % 2 == 1 { installed.insert("zzz-unrelated".to_string(), "9".parse().unwrap()); installed.insert("a".to_string(), "0.1".parse().unwrap()); }
+        if chain_id % 2 == 1 && chain_id != 7 { installed.insert("zzz-unrelated".to_string(), "9".parse().unwrap()); installed.insert("a".to_string(), "0.1".parse().unwrap()); }
         let feats = vec![format!("chain{}", chain_id)];
         let by_map = |n: &str| installed.lookup_version(n).map(|c| c.into_owned());
         let by_closure = |n: &str| installed.get(n).cloned();
